@@ -133,7 +133,13 @@ func c13Case(site c13Site, defKind string) *Case { return c13CaseRaw(site, defKi
 // c13CaseRaw: with rawAfter a top-level raw block directly follows the
 // definitions (a definition's value must end before it).
 func c13CaseRaw(site c13Site, defKind string, rawAfter bool) *Case {
-	at := &AtomTable{Coded: true}
+	return c13CaseMode(site, defKind, rawAfter, true)
+}
+
+// c13CaseMode with coded=false: names are SMT strings, so a decision taken on
+// a name's spelling (its first character, its case, ...) is a solver query.
+func c13CaseMode(site c13Site, defKind string, rawAfter, coded bool) *Case {
+	at := &AtomTable{Coded: coded}
 	defs := c13MakeDefs(defKind, at)
 	use := at.New(ClsIdent, "use", "")
 	_ = use
@@ -313,6 +319,14 @@ func RunC13(env *Env, rep *Report) {
 			if dk == "one-multi" || (dk == "one-single" && s.name == "mart-item") {
 				cases = append(cases, c13CaseRaw(s, dk, true))
 			}
+		}
+	}
+	// SMT-string names at two sites
+	for i, s := range c13Sites() {
+		if i == 0 || s.name == "flag-operand" || s.name == "case-value" {
+			cs := c13CaseMode(s, "one-single", false, false)
+			cs.Name = strings.Replace(cs.Name, "c13/", "c13/spelled/", 1)
+			cases = append(cases, cs)
 		}
 	}
 	// "redefining a constant is rejected": the templates of C20 (different and
